@@ -159,13 +159,24 @@ def evaluate(case):
     exp = ref_accept(root_pk, certs, final_sig, case['fields'], case['allowed'], case['t'], case['now'], case['thr'], chain_lock)
     got = run_lock(root_pk, certs, final_sig, case['fields'], case['allowed'], case['t'], case['now'], case['thr'], chain_lock)
     fails = []
+    info = {'expected': exp}
+    if got is True and exp:
+        # the accepted certificates and signature again, in the same process, over other sigfield contents (and, apart from
+        # that, at a time outside the first window): the reference decides - no verdict is remembered per signature or certificate
+        f2 = {k: v + b'!' for k, v in case['fields'].items()}
+        info['replayed'] = True
+        for ff, tt in ((f2, case['t']), (case['fields'], 2 ** 31 - 1)):
+            e2 = ref_accept(root_pk, certs, final_sig, ff, case['allowed'], tt, tt, case['thr'], chain_lock)
+            if not e2 and run_lock(root_pk, certs, final_sig, ff, case['allowed'], tt, tt, case['thr'], chain_lock):
+                fails.append(('delegation/%s/accepted-pair-still-accepted-%s' % ('chain-lock' if chain_lock else 'single-lock',
+                              'over-other-sigfield-contents' if ff is f2 else 'at-another-time'), 'links=%d' % len(certs)))
     if got != exp:
         d = case.get('defect')
         what = d[0] if d else case.get('window', 'valid')
         fails.append(('delegation/%s/%s' % ('chain-lock' if chain_lock else 'single-lock',
                                             ('accepts-' + what) if got else ('rejects-' + what)),
                       'links=%d t=%d now=%d thr=%d: got %r expected %r' % (len(certs), case['t'], case['now'], case['thr'], got, exp)))
-    return fails, {'expected': exp}
+    return fails, info
 
 
 def check_cert_roundtrip(pk, begin, end, can, sig):
